@@ -28,7 +28,7 @@ BanksWhy(a, r) ==
   ELSE IF Len(r.banks) # Len(a.banks) THEN "number of merged banks differs from the bank definitions"
   ELSE IF \E j \in Idx(a.banks) : r.banks[j].name # a.banks[j].name THEN "merged banks are not in definition order"
   ELSE IF \E j \in Idx(a.banks) : r.banks[j].data # a.banks[j].data THEN "a merged bank's bytes differ from its image"
-  ELSE IF \E j \in Idx(a.banks) : Len(a.banks[j].data) > 0 /\ (r.banks[j].lo # a.banks[j].lo \/ r.banks[j].hi # a.banks[j].hi)
+  ELSE IF \E j \in Idx(a.banks) : a.banks[j].written /\ (r.banks[j].lo # a.banks[j].lo \/ r.banks[j].hi # a.banks[j].hi)
          THEN "a merged bank's range is not lowest..highest written address (+ padding)"
   ELSE ""
 
